@@ -179,6 +179,29 @@ CHECKS["C01"] = dict(
     note="Trusted: the Rust signature primitive and specs/auth_table.json. The hidden-service overlay is covered through its "
          "TunnelCommunity base only. Exceptions escaping the receive path are judged by C03.")
 
+CHECKS["C03"] = dict(
+    category="exploration", design_ref="DESIGN.md 2/C03",
+    technique="exhaustive short inputs + truncation enumeration of captured traffic + Hypothesis structured corruption + Atheris coverage-guided fuzzing (thorough), with a listener/handler-trace oracle; decode level differential against pv.refcodec.walk",
+    text="A node multiplexing all shipped overlays (on a simulated endpoint and on real, unopened UDPEndpoint / UDPv6Endpoint "
+         "objects) receives every byte string of length <= 2, every prefix with every message id and short bodies, every "
+         "truncation of captured traffic and Hypothesis-corrupted datagrams up to 1500 bytes; the receive entry must return, "
+         "the catch-all and all prefix listeners must be called once, handlers run only under their own prefix. Thorough "
+         "adds 16 Atheris workers (empty and seeded corpora) on the same entry with the oracle inside the target. The decode "
+         "level (pv.c03_decode) checks every Serializable class and packer on truncated / length-corrupted buffers against "
+         "the independent structural walker, and Network.load_snapshot on arbitrary bytes.",
+    note="Exceptions inside asynchronous handlers after on_packet returned are outside the statement. libFuzzer campaigns are "
+         "only approximately reproducible from the seed; saved crash inputs are replayed through the same oracle.")
+CHECKS["C18"] = dict(
+    category="exploration", design_ref="DESIGN.md 2/C18",
+    technique="differential PBT against an independent reference field implementation (incl. randomized polynomial identity testing at a 255-bit prime) + protocol-level PBT with fresh keys",
+    text="Every FP2Value operator is compared with pv.fp2ref on exhaustive small-coefficient grids for all primes = 2 mod 3 "
+         "below 200, on random operands at 32-128-bit primes and on uniformly random operands at a 255-bit prime (each sample "
+         "tests a polynomial identity of degree <= 4, error <= 4/p); exact attestations with seeded fresh keys are checked "
+         "for profile reconstruction, certainty of the true value and zero score of rivals, range proofs for honest "
+         "acceptance and rejection of dishonest provers / altered responses, and serialisation round trips.",
+    note="'For all moduli, symbolically' is decided by randomized identity testing with a stated error bound, not symbolically. "
+         "Soundness of the cryptographic schemes beyond the listed algebra is trusted; 32/64-bit keys are used for speed.")
+
 PENDING = {}
 
 def main():
